@@ -62,7 +62,8 @@ func parseStatus(out string) string {
 
 // Solve runs the solvers on the full script and, if given, on the instantiated (QF) variant.
 // An unsat answer from either is a proof; only a sat answer on the full script is a counterexample.
-func Solve(file, qfFile string, timeout time.Duration, all bool) *SolveResult {
+func Solve(file, qfFile string, timeout time.Duration, all bool, cover ...bool) *SolveResult {
+	isCover := len(cover) > 0 && cover[0]
 	ctx, cancel := context.WithTimeout(context.Background(), timeout+2*time.Second)
 	defer cancel()
 	type ans struct {
@@ -114,7 +115,7 @@ func Solve(file, qfFile string, timeout time.Duration, all bool) *SolveResult {
 	for got := 0; got < len(runs); got++ {
 		a := <-ch
 		res.All[a.solver] = a.status
-		decisive := a.status == "unsat" || (a.status == "sat" && !a.qf)
+		decisive := a.status == "unsat" || (a.status == "sat" && (!a.qf || isCover))
 		if decisive {
 			if res.Status != "sat" && res.Status != "unsat" {
 				res.Status, res.Solver, res.Seconds, res.Output = a.status, a.solver, a.secs, a.out
